@@ -10,4 +10,5 @@ CONSTANTS
   OwnLineOptions <- QuickOptions
   AllAtomsUpTo = 1
   DefaultFrom = 99
+  OpsFrom = 99
 INVARIANTS FSpineOK FEmit
